@@ -18,7 +18,7 @@ def _corr_skip(op, impl, model):
 PROP = dict(
     lean_modules=["Octo.Props.C27"],
     required_theorems=["Octo.C27.steps_tie", "Octo.C27.crash_points_tie", "Octo.C27.paths_tie", "Octo.C27.download_under",
-                       "Octo.C27.registry_decodes", "Octo.C27.C27_partial", "Octo.C27.C27_fresh", "Octo.C27.C27_addrepo", "Octo.C27.C27_resolves", "Octo.C27.C27_healthy_again",
+                       "Octo.C27.registry_decodes", "Octo.C27.C27_partial", "Octo.C27.C27_fresh", "Octo.C27.C27_addrepo", "Octo.C27.C27_resolves", "Octo.C27.C27_healthy_again", "Octo.C27.C27_history",
                        "Octo.C27.C27_refuted"],
     needs_binary=True,
     gen=["installsteps"],
@@ -44,7 +44,7 @@ PROP = dict(
     level_text="Lean theorems over a file-system step model: for every healthy tree, configuration, installation job, number k of "
                "completed filesystem steps and tear t of the step in progress, the state left by a killed `plugin install` starts "
                "octosql and behaves exactly like the state before or like the state after the complete installation, every version "
-               "directory being byte-identical to that state's (C27_partial, C27_resolves), and is again a healthy starting state (C27_healthy_again) - except the single state in which an "
+               "directory being byte-identical to that state's (C27_partial, C27_resolves), and is again a healthy starting state (C27_healthy_again), so any history of completed or killed installs / repository adds outside the window keeps octosql starting (C27_history) - except the single state in which an "
                "already installed version has been moved aside and the new copy is not yet in place (C27_refuted, known finding "
                "reinstall-swap-window; C27_fresh: no exception when the version was not installed). `repository add`: full (C27_addrepo). "
                "The step lists are regenerated from the Go source and proved equal to the model's (steps_tie, paths_tie); the model is "
